@@ -22,6 +22,7 @@ func init() {
 		Assumptions: []string{"reads are counted as distinct node names passed to Persist.Load; without a cache every node visit is a Load, so nothing is hidden"},
 		MinObs:      map[string]int64{"diffs_measured": 6000, "pairs_d0": 100, "large_pairs": 20},
 		Run:         runC15,
+		EvalObs:     []string{"diffs_measured"},
 		// a seed-determined case that reproduces the recorded finding on every run
 		Pinned: []fw.PinnedCase{{Seed: 0, Idx: -1}},
 	})
